@@ -543,6 +543,7 @@ class SquashState:
         if self.squash:
             x = jnp.tanh(x)
             x = 0.5 * (x + 1.0) * (self.high - self.low) + self.low
+            x = jnp.clip(x, self.low, self.high)  # Rounding may overshoot the bounds by one ulp when tanh saturates.
         else:
             x = jnp.clip(x, self.low, self.high)
         return x
